@@ -699,3 +699,68 @@ mod tests {
         }
     }
 }
+
+#[cfg(futures_intrusive_verif)]
+fn verif_addr<T>(p: Option<NonNull<ListNode<T>>>) -> usize {
+    p.map_or(0, |p| p.as_ptr() as usize)
+}
+
+#[cfg(futures_intrusive_verif)]
+impl<T> ListNode<T> {
+    /// Verification hook: raw links `[prev, next, 0, 0]` (0 = none)
+    pub fn verif_links(&self) -> [usize; 4] {
+        [verif_addr(self.prev), verif_addr(self.next), 0, 0]
+    }
+}
+
+#[cfg(futures_intrusive_verif)]
+impl<T> LinkedList<T> {
+    /// Verification hook: raw `(head, tail)` (0 = none)
+    pub fn verif_head_tail(&self) -> (usize, usize) {
+        (verif_addr(self.head), verif_addr(self.tail))
+    }
+
+    /// Verification hook: visits up to `limit` nodes from the tail (oldest)
+    /// to the head (newest) following `prev` links. Read-only.
+    pub fn verif_for_each_oldest_first(
+        &self,
+        limit: usize,
+        f: &mut dyn FnMut(&ListNode<T>),
+    ) {
+        let mut current = self.tail;
+        let mut n = 0;
+        while let Some(node) = current {
+            if n >= limit {
+                return;
+            }
+            n += 1;
+            unsafe {
+                let node_ref = &*(node.as_ptr() as *const ListNode<T>);
+                current = node_ref.prev;
+                f(node_ref);
+            }
+        }
+    }
+
+    /// Verification hook: visits up to `limit` nodes from the head (newest)
+    /// to the tail (oldest) following `next` links. Read-only.
+    pub fn verif_for_each_newest_first(
+        &self,
+        limit: usize,
+        f: &mut dyn FnMut(&ListNode<T>),
+    ) {
+        let mut current = self.head;
+        let mut n = 0;
+        while let Some(node) = current {
+            if n >= limit {
+                return;
+            }
+            n += 1;
+            unsafe {
+                let node_ref = &*(node.as_ptr() as *const ListNode<T>);
+                current = node_ref.next;
+                f(node_ref);
+            }
+        }
+    }
+}
